@@ -2,6 +2,7 @@ SPECIFICATION Spec
 CONSTANTS
   Creations = {1}
   MaxSet = 0
+  GivesBackOnFailure = FALSE
   CreationRewinds = FALSE
   Threads = {}
   MaxId = 3
